@@ -250,7 +250,13 @@ def run(ctx):
               'saturated lookups are re-checked against the civil time', final.ast,
               'an instant that saturated to time_point::max()/min() is returned although the civil time lies beyond the '
               'representable range', construct='exit:saturation', detail='%d re-check edges' % len(e_sat))
-    ctx.minimum('C09-exit', 7)
+    lookups = [x for x in walk(f) if x.get('kind') == 'CXXMemberCallExpr' and callee(x) and callee(x)[1] == 'lookup' and callee(x)[2] is not None]
+    recv = set(F.keys.key(callee(x)[2]) for x in lookups)
+    ctx.check(len(lookups) >= 3 and len(recv) == 1, 'C09-exit', 'the civil time and both saturation re-checks are looked up in one and the same zone', final.ast,
+              'the saturation re-checks consult a different zone (%s) than the one the civil time was interpreted in: with a parsed '
+              'UTC offset and a non-UTC argument zone an unrepresentable instant is accepted or a representable one rejected'
+              % sorted(z.split('#')[0] for z in recv), construct='exit:samezone', detail=', '.join(sorted(z.split('#')[0] for z in recv)))
+    ctx.minimum('C09-exit', 8)
 
     # ---- C09-cursor
     n = cursor.check_function(ctx, 'C09-cursor', kp)
@@ -274,12 +280,20 @@ def run(ctx):
         for x in walk(ff):
             if x.get('kind') == 'UnaryOperator' and x.get('opcode') == '-' and x.get('_p', {}).get('kind') == 'BinaryOperator' \
                     and x['_p'].get('opcode') == '=':
-                fs = Fi.facts_at_ast(x) or frozenset()
                 vk = Fi.keys.key(kids(x)[0])
-                ok = any(op == '!=' and vk in (a, b) and any(z.startswith('n:-') for z in (a, b)) for (op, a, b) in fs) or \
-                    any(op == '!=' and 'neg' in a + b for (op, a, b) in fs)
-                # value = -value only when !neg and (neg || value != kmin) held  => value != kmin
-                ok = ok or any(op == '==' and 'n:0' in (a, b) and 'neg' in a + b for (op, a, b) in fs)
+                gi = ctx.cfg(ff)
+                ok = True
+                npaths = 0
+                for (now, ever) in Fi.path_facts(gi.nodes_for(x), history=True):
+                    npaths += 1
+                    # infeasible path: contradictory facts about one flag
+                    contra = any(('==', a, b) in ever for (op, a, b) in ever if op == '!=')
+                    if contra:
+                        continue
+                    guarded = any(op == '!=' and vk in (a, b) and any(z.startswith('n:-') for z in (a, b)) for (op, a, b) in now)
+                    if not guarded:
+                        ok = False
+                ok = ok and npaths > 0
                 ctx.check(ok, 'C09-ovf', 'negation of the accumulated value in %s is representable' % fname(k_), x,
                           'the accumulated (negative) value is negated without having been compared with the type minimum',
                           construct='ovf:neg:%s' % fname(k_))
